@@ -1,12 +1,1309 @@
-//! C13 — monitor not built yet (stub so that the registry is complete).
+//! C13 — pointer inference never excludes values that can occur at runtime.
+//!
+//! Monitor shape: concrete executions (reference interpreter `irx`) of random single-function
+//! programs are compared, at every block start they reach, with the abstract state the real
+//! pointer inference computed for that block: every concrete register value (and every stack
+//! slot content, and every value/address the analysis publishes per Def) has to be a member of
+//! the concretisation γ of the corresponding abstract value. γ is written here from the
+//! documentation of `DataDomain`/`IntervalDomain`/`AbstractIdentifier`; none of the crate's
+//! transfer functions is used by the oracle.
+
 use crate::core::*;
+use crate::irb::*;
+use crate::irx::{Ev, Machine, Observer, State as XState};
+use crate::pref::V;
+use crate::prng::{mix, Rng};
+use cwe_checker_lib::abstract_domain::{
+    AbstractIdentifier, AbstractLocation, AbstractMemoryLocation, IntervalDomain, SizedDomain, TryToInterval,
+};
+use cwe_checker_lib::analysis::graph::{self, Node};
+use cwe_checker_lib::analysis::interprocedural_fixpoint_generic::NodeValue;
+use cwe_checker_lib::analysis::pointer_inference::Data;
+use cwe_checker_lib::analysis::vsa_results::VsaResult;
+use cwe_checker_lib::intermediate_representation::*;
+use cwe_checker_lib::pipeline::AnalysisResults;
+use serde_json::{json, Value};
+use std::collections::{BTreeMap, BTreeSet};
+use std::sync::OnceLock;
 
 pub fn info() -> CheckInfo {
     CheckInfo {
         id: "C13",
-        rule: "(monitor not built yet)",
-        assumptions: &[],
-        run: |_cfg| Report::new(),
-        replay: |_cfg, _case| Report::new(),
+        rule: "random single-function x86-64-style programs (prologue with optional frame pointer / red zone / stack alignment mask, register arithmetic and masks, 4/8-byte loads and stores at constant offsets from RSP/RBP incl. overlapping slots and stack-parameter reads, push/pop, flags computed into ZF/CF/SF/OF and used later, compare-and-branch with all six comparison kinds in both operand orders and polarities on registers, sub-registers, loaded values and compound conditions, register and stack-slot counters with constant steps in loops) are normalised (basic; plus optimising passes in half the cases), analysed by the real pipeline (CFG, function signatures, pointer inference with the shipped Memory config) and then executed by the interpreter irx from boundary-biased initial states; at every block start reached: node value exists, every register and every stack slot of the program's slot pool is a member of gamma(abstract value); per executed Def: loaded/assigned/stored value and the access address are members of gamma(eval_value_at_def / eval_address_at_def). non-trivial = a run that reaches at least two block starts and checks at least one non-Top abstract register other than the stack pointer; distinct = hash of (program, initial state)",
+        assumptions: &[
+            "irx/pref are a correct reading of the IR / P-Code semantics",
+            "gamma(DataDomain<IntervalDomain>) = Top flag => everything; absolute part = signed strided interval; (sub, Register v) => entry value of v; (sub, Pointer path) => value found by walking the path through the entry memory; global id with address 0 => base 0; any other identifier is not concretised (comparison counted inconclusive)",
+            "memory is accessed only through RSP, or through RBP after the prologue copied RSP into it (no access through parameters, no aliasing between parameter objects and the frame); no calls",
+            "flags (1-byte registers) hold 0/1; the stack pointer is a multiple of 2^16 at function entry and far away from the NULL range; accesses to (-1024,1024) abort the run",
+            "programs whose pointer-inference log says 'Fixpoint did not stabilize' are inconclusive",
+            "signatures carry a cause hint (how many identifiers the predecessor's branch condition is relative to); a program whose violations all disappear when the branch conditions over values relative to >= 2 different identifiers are made opaque is tagged with the proposed known-finding key c13-intersection-of-values-relative-to-different-ids (DataDomain::intersect, documented as unsound in the code)",
+            "verdicts on the release profile",
+        ],
+        run,
+        replay,
     }
+}
+
+// ---------------------------------------------------------------------------------------------
+// gamma: decoding of abstract values
+
+#[derive(Clone, Debug)]
+pub struct Itv {
+    pub start: i128,
+    pub end: i128,
+    pub stride: u64,
+}
+
+#[derive(Clone, Debug)]
+pub enum Base {
+    /// entry value of a register
+    Reg(Variable),
+    /// root register, offsets of the pointers to follow, final offset, size of the value
+    Mem(Variable, Vec<i64>, i64, u32),
+    GlobalZero,
+    Unknown(String),
+}
+
+#[derive(Clone, Debug)]
+pub struct AbsVal {
+    pub w: u32,
+    pub top: bool,
+    pub abs: Option<Itv>,
+    pub rel: Vec<(Base, u32, Itv)>,
+    pub text: String,
+}
+
+#[derive(Clone, Copy, PartialEq, Eq, Debug)]
+pub enum Member {
+    Yes,
+    No,
+    /// not a member of any part that could be concretised, but some identifier could not be concretised
+    Unknown,
+}
+
+fn itv_of(d: &IntervalDomain) -> Itv {
+    let w = u64::from(d.bytesize()) as u32;
+    match d.try_to_interval() {
+        Ok(i) => Itv { start: crate::conv::from_bv(&i.start).s(), end: crate::conv::from_bv(&i.end).s(), stride: i.stride },
+        Err(_) => {
+            let top = V::new(1u128 << (8 * w - 1), w);
+            Itv { start: top.s(), end: -(top.s() + 1), stride: 1 }
+        }
+    }
+}
+
+impl Itv {
+    pub fn contains(&self, s: i128) -> bool {
+        if self.start > self.end {
+            return true; // not a well-formed signed interval (C02's matter): nothing can be refuted
+        }
+        if s < self.start || s > self.end {
+            return false;
+        }
+        if self.stride <= 1 || self.start == self.end {
+            // (stride 0 with start != end is ill-formed: lenient, only the bounds are applied)
+            return true;
+        }
+        (s - self.start) % (self.stride as i128) == 0
+    }
+    pub fn is_top(&self, w: u32) -> bool {
+        let min = V::new(1u128 << (8 * w - 1), w).s();
+        self.start == min && self.end == -(min + 1) && self.stride == 1
+    }
+}
+
+fn base_of(id: &AbstractIdentifier, sub_tid: &Tid) -> Base {
+    if id.get_tid() != sub_tid || !id.get_path_hints().is_empty() {
+        return Base::Unknown(format!("{id}"));
+    }
+    match id.get_location() {
+        AbstractLocation::Register(v) => Base::Reg(v.clone()),
+        AbstractLocation::Pointer(v, loc) => {
+            let mut ptrs = Vec::new();
+            let mut cur = loc;
+            loop {
+                match cur {
+                    AbstractMemoryLocation::Location { offset, size } => {
+                        return Base::Mem(v.clone(), ptrs, *offset, u64::from(*size) as u32);
+                    }
+                    AbstractMemoryLocation::Pointer { offset, target } => {
+                        ptrs.push(*offset);
+                        cur = target;
+                    }
+                }
+            }
+        }
+        AbstractLocation::GlobalAddress { address: 0, .. } => Base::GlobalZero,
+        _ => Base::Unknown(format!("{id}")),
+    }
+}
+
+pub fn decode(d: &Data, sub_tid: &Tid) -> AbsVal {
+    let w = u64::from(d.bytesize()) as u32;
+    AbsVal {
+        w,
+        top: d.contains_top(),
+        abs: d.get_absolute_value().map(itv_of),
+        rel: d
+            .get_relative_values()
+            .iter()
+            .map(|(id, off)| (base_of(id, sub_tid), u64::from(id.bytesize()) as u32, itv_of(off)))
+            .collect(),
+        text: d.to_json_compact().to_string(),
+    }
+}
+
+fn concretise(base: &Base, entry: &XState, m: &Machine) -> Option<u128> {
+    match base {
+        Base::Reg(v) => m.read_var(entry, v).ok().map(|x| x.v),
+        Base::Mem(v, ptrs, off, size) => {
+            let mut p = m.read_var(entry, v).ok()?.v as u64;
+            for o in ptrs {
+                p = m.load_mem(entry, p.wrapping_add(*o as u64), 8) as u64;
+            }
+            Some(m.load_mem(entry, p.wrapping_add(*off as u64), *size))
+        }
+        Base::GlobalZero => Some(0),
+        Base::Unknown(_) => None,
+    }
+}
+
+impl AbsVal {
+    pub fn is_top(&self) -> bool {
+        self.top || self.abs.as_ref().is_some_and(|i| i.is_top(self.w) || i.start > i.end)
+    }
+    pub fn shape(&self) -> &'static str {
+        match (self.abs.is_some(), !self.rel.is_empty()) {
+            (true, true) => "mixed",
+            (true, false) => "abs",
+            (false, true) => "rel",
+            (false, false) => "empty",
+        }
+    }
+    pub fn member(&self, c: V, entry: &XState, m: &Machine) -> Member {
+        if self.top {
+            return Member::Yes;
+        }
+        if self.w != c.w {
+            return Member::No;
+        }
+        if let Some(i) = &self.abs {
+            if i.contains(c.s()) {
+                return Member::Yes;
+            }
+        }
+        let mut unknown = false;
+        for (base, idw, off) in &self.rel {
+            if *idw != self.w {
+                unknown = true;
+                continue;
+            }
+            match concretise(base, entry, m) {
+                Some(b) => {
+                    if off.contains(V::new(c.v.wrapping_sub(b), self.w).s()) {
+                        return Member::Yes;
+                    }
+                }
+                None => unknown = true,
+            }
+        }
+        if unknown {
+            Member::Unknown
+        } else {
+            Member::No
+        }
+    }
+}
+
+// ---------------------------------------------------------------------------------------------
+// Generator
+
+const DATA_REGS: &[&str] = &["RAX", "RBX", "RCX", "RDX", "RSI", "RDI", "R8", "R12"];
+const CMP_OPS: &[BinOpType] = &[
+    BinOpType::IntEqual,
+    BinOpType::IntNotEqual,
+    BinOpType::IntLess,
+    BinOpType::IntSLess,
+    BinOpType::IntLessEqual,
+    BinOpType::IntSLessEqual,
+];
+
+#[derive(Clone, Debug, Default)]
+pub struct Meta {
+    /// constants the program compares against / assigns (initial states are biased around them)
+    pub consts: Vec<i64>,
+    /// stack slots (offset relative to the entry stack pointer, size) the program may touch
+    pub slots: Vec<(i64, u32)>,
+    pub optimized: bool,
+}
+
+impl Meta {
+    fn to_json(&self) -> Value {
+        json!({"consts": self.consts, "slots": self.slots, "optimized": self.optimized})
+    }
+    fn from_json(v: &Value) -> Meta {
+        Meta {
+            consts: v["consts"].as_array().map(|a| a.iter().filter_map(|x| x.as_i64()).collect()).unwrap_or_default(),
+            slots: v["slots"]
+                .as_array()
+                .map(|a| a.iter().filter_map(|x| Some((x.get(0)?.as_i64()?, x.get(1)?.as_u64()? as u32))).collect())
+                .unwrap_or_default(),
+            optimized: v["optimized"].as_bool().unwrap_or(false),
+        }
+    }
+}
+
+struct Counter {
+    reg: &'static str,
+    slot: Option<(i64, u32)>,
+    init: i64,
+    step: i64,
+    bound: i64,
+    op: BinOpType,
+    const_left: bool,
+    via_flag: bool,
+    negate: bool,
+}
+
+struct Gen<'a> {
+    rng: &'a mut Rng,
+    n: u32,
+    consts: Vec<i64>,
+    slots: Vec<(i64, u32)>,
+    regs: Vec<&'static str>,
+    has_fp: bool,
+    rbp_off: i64,
+    exotic: bool,
+}
+
+impl<'a> Gen<'a> {
+    fn t(&mut self, p: &str) -> Tid {
+        self.n += 1;
+        tid(&format!("{p}{}", self.n), &format!("{:04x}", 0x1000 + self.n * 4))
+    }
+    fn reg(&mut self) -> &'static str {
+        *self.rng.pick(&self.regs)
+    }
+    fn c(&mut self) -> i64 {
+        let base = *self.rng.pick(&self.consts);
+        base.wrapping_add(*self.rng.pick(&[0i64, 0, 0, 0, 1, -1, 2]))
+    }
+    fn flag(&mut self) -> Variable {
+        var(*self.rng.pick(FLAGS), 1)
+    }
+
+    fn addr(&mut self, off: i64, sp_now: i64) -> Expression {
+        let via_fp = self.has_fp && (self.rng.bool() || off >= 0);
+        let (base, k) = if via_fp { ("RBP", off - self.rbp_off) } else { ("RSP", off - sp_now) };
+        if k == 0 {
+            return e_reg(base);
+        }
+        match self.rng.below(10) {
+            0..=6 => e_bin(BinOpType::IntAdd, e_reg(base), e_const(k, 8)),
+            7 | 8 => e_bin(BinOpType::IntSub, e_reg(base), e_const(k.wrapping_neg(), 8)),
+            _ => e_bin(BinOpType::IntAdd, e_const(k, 8), e_reg(base)),
+        }
+    }
+
+    fn sub4(&mut self, r: &str) -> Expression {
+        e_subpiece(0, 4, e_reg(r))
+    }
+
+    fn e8(&mut self, depth: u32) -> Expression {
+        use BinOpType::*;
+        if depth == 0 {
+            return if self.rng.chance(3, 5) { e_reg(self.reg()) } else { e_const(self.c(), 8) };
+        }
+        match self.rng.below(14) {
+            0..=3 => {
+                let op = *self.rng.pick(&[IntAdd, IntAdd, IntSub]);
+                let c = if self.rng.bool() { self.c() } else { *self.rng.pick(&[1i64, 1, 2, 3, 4, 8, -1, 16]) };
+                e_bin(op, e_reg(self.reg()), e_const(c, 8))
+            }
+            4 | 5 => {
+                let op = *self.rng.pick(&[IntAdd, IntSub]);
+                let l = self.e8(depth - 1);
+                let r = self.e8(depth - 1);
+                e_bin(op, l, r)
+            }
+            6 => {
+                let m = *self.rng.pick(&[0xffi64, 0xffff, 0x7, 0xf, 0xffff_ffff, -16, -256, 0x7fff_ffff, 1]);
+                let a = self.e8(depth - 1);
+                if self.rng.chance(1, 5) {
+                    e_bin(IntAnd, e_const(m, 8), a)
+                } else {
+                    e_bin(IntAnd, a, e_const(m, 8))
+                }
+            }
+            7 => {
+                let op = *self.rng.pick(&[IntOr, IntXOr, IntXOr]);
+                let a = e_reg(self.reg());
+                let b = if self.rng.bool() { e_reg(self.reg()) } else { e_const(self.c(), 8) };
+                e_bin(op, a, b)
+            }
+            8 => {
+                let a = self.e8(depth - 1);
+                match self.rng.below(4) {
+                    0 => e_bin(IntMult, a, e_const(*self.rng.pick(&[2i64, 3, 4, 8, -1, 10]), 8)),
+                    1 => e_bin(IntLeft, a, e_const(*self.rng.pick(&[1i64, 2, 3, 4, 63]), 1)),
+                    2 => e_bin(IntRight, a, e_const(*self.rng.pick(&[1i64, 2, 8, 32, 63]), 1)),
+                    _ => e_bin(IntSRight, a, e_const(*self.rng.pick(&[1i64, 2, 8, 63]), 1)),
+                }
+            }
+            9 | 10 => {
+                let op = *self.rng.pick(&[CastOpType::IntZExt, CastOpType::IntSExt]);
+                let r = self.reg();
+                let inner = if self.rng.chance(1, 3) {
+                    e_bin(*self.rng.pick(&[IntAdd, IntSub, IntAnd]), self.sub4(r), e_const(self.c(), 4))
+                } else {
+                    self.sub4(r)
+                };
+                e_cast(op, 8, inner)
+            }
+            11 => e_un(*self.rng.pick(&[UnOpType::Int2Comp, UnOpType::IntNegate]), e_reg(self.reg())),
+            12 => e_cast(CastOpType::IntZExt, 8, e_var(&self.flag())),
+            _ => e_const(self.c(), 8),
+        }
+    }
+
+    fn cmp(&mut self) -> Expression {
+        use BinOpType::*;
+        let op = *self.rng.pick(CMP_OPS);
+        match self.rng.below(12) {
+            0..=3 => e_bin(op, e_reg(self.reg()), e_const(self.c(), 8)),
+            4 | 5 => e_bin(op, e_const(self.c(), 8), e_reg(self.reg())),
+            6 => e_bin(op, e_reg(self.reg()), e_reg(self.reg())),
+            7 | 8 => {
+                let r = self.reg();
+                let c = e_const(self.c(), 4);
+                if self.rng.chance(1, 3) {
+                    e_bin(op, c, self.sub4(r))
+                } else {
+                    e_bin(op, self.sub4(r), c)
+                }
+            }
+            9 => {
+                let aop = *self.rng.pick(&[IntAdd, IntSub]);
+                let k = *self.rng.pick(&[1i64, 2, 3, 8, -1, 100]);
+                let inner = e_bin(aop, e_reg(self.reg()), e_const(k, 8));
+                e_bin(op, inner, e_const(self.c(), 8))
+            }
+            10 => {
+                let a = e_reg(self.reg());
+                let b = if self.rng.bool() { e_reg(self.reg()) } else { e_const(self.c(), 8) };
+                let z = e_const(*self.rng.pick(&[0i64, 0, 0, 1, -1]), 8);
+                e_bin(op, e_bin(IntSub, a, b), z)
+            }
+            _ => {
+                // comparison of an extended sub-register
+                let r = self.reg();
+                let cast = *self.rng.pick(&[CastOpType::IntZExt, CastOpType::IntSExt]);
+                e_bin(op, e_cast(cast, 8, self.sub4(r)), e_const(self.c(), 8))
+            }
+        }
+    }
+
+    fn cond(&mut self, depth: u32) -> Expression {
+        use BinOpType::*;
+        if depth == 0 {
+            return if self.rng.chance(2, 3) { self.cmp() } else { e_var(&self.flag()) };
+        }
+        match self.rng.below(12) {
+            0..=4 => self.cmp(),
+            5 | 6 => e_var(&self.flag()),
+            7 => e_un(UnOpType::BoolNegate, self.cond(depth - 1)),
+            8 => {
+                let op = *self.rng.pick(&[BoolAnd, BoolOr]);
+                let a = self.cond(depth - 1);
+                let b = self.cond(depth - 1);
+                e_bin(op, a, b)
+            }
+            9 => {
+                // (a - b s< 0) != sborrow(a, b)  <=>  a s< b
+                let a = e_reg(self.reg());
+                let b = if self.rng.bool() { e_reg(self.reg()) } else { e_const(self.c(), 8) };
+                let lt = e_bin(IntSLess, e_bin(IntSub, a.clone(), b.clone()), e_const(0, 8));
+                let ov = e_bin(IntSBorrow, a, b);
+                e_bin(*self.rng.pick(&[IntNotEqual, IntEqual]), lt, ov)
+            }
+            10 => {
+                let f = e_var(&self.flag());
+                match self.rng.below(3) {
+                    0 => e_bin(BoolXOr, f, e_const(1, 1)),
+                    1 => e_bin(IntEqual, f, e_const(0, 1)),
+                    _ => e_bin(IntNotEqual, f, e_const(0, 1)),
+                }
+            }
+            _ => {
+                // unsigned "below or equal": CF | ZF
+                let a = e_var(&var("CF", 1));
+                let b = e_var(&var("ZF", 1));
+                e_bin(BoolOr, a, b)
+            }
+        }
+    }
+
+    fn load_slot(&mut self, defs: &mut Vec<Term<Def>>, slot: (i64, u32), target: &str, sp_now: i64) {
+        let a = self.addr(slot.0, sp_now);
+        if slot.1 == 8 {
+            defs.push(load(self.t("d"), reg(target), a));
+        } else {
+            let tv = tmp(&format!("$U{}", self.n), 4);
+            defs.push(load(self.t("d"), tv.clone(), a));
+            let cast = *self.rng.pick(&[CastOpType::IntZExt, CastOpType::IntSExt]);
+            defs.push(assign(self.t("d"), reg(target), e_cast(cast, 8, e_var(&tv))));
+        }
+    }
+
+    fn store_slot(&mut self, defs: &mut Vec<Term<Def>>, slot: (i64, u32), value: Expression, sp_now: i64) {
+        let a = self.addr(slot.0, sp_now);
+        defs.push(store(self.t("d"), a, value));
+    }
+
+    fn def(&mut self, defs: &mut Vec<Term<Def>>, sp_now: &mut i64, pending_pops: &mut Vec<&'static str>) {
+        match self.rng.below(20) {
+            0..=3 => {
+                let r = self.reg();
+                let depth = self.rng.range_usize(1, 2) as u32;
+                let e = self.e8(depth);
+                defs.push(assign(self.t("d"), reg(r), e));
+            }
+            4 => {
+                let r = self.reg();
+                let c = self.c();
+                defs.push(assign(self.t("d"), reg(r), e_const(c, 8)));
+            }
+            5..=7 if !self.slots.is_empty() => {
+                let s = *self.rng.pick(&self.slots);
+                let r = self.reg();
+                self.load_slot(defs, s, r, *sp_now);
+            }
+            8..=10 if !self.slots.is_empty() => {
+                let s = *self.rng.pick(&self.slots);
+                let v = if s.1 == 8 {
+                    if self.rng.chance(2, 3) {
+                        e_reg(self.reg())
+                    } else {
+                        e_const(self.c(), 8)
+                    }
+                } else if self.rng.chance(2, 3) {
+                    let r = self.reg();
+                    self.sub4(r)
+                } else {
+                    e_const(self.c(), 4)
+                };
+                self.store_slot(defs, s, v, *sp_now);
+            }
+            11..=13 => {
+                let f = self.flag();
+                let e = if self.rng.chance(3, 4) { self.cmp() } else { self.cond(1) };
+                defs.push(assign(self.t("d"), f, e));
+            }
+            14 => {
+                // push
+                let r = self.reg();
+                defs.push(assign(self.t("d"), reg("RSP"), e_bin(BinOpType::IntSub, e_reg("RSP"), e_const(8, 8))));
+                defs.push(store(self.t("d"), e_reg("RSP"), e_reg(r)));
+                *sp_now -= 8;
+                let popped = if self.rng.chance(2, 3) { r } else { self.reg() };
+                pending_pops.push(popped);
+            }
+            15 if !pending_pops.is_empty() => self.pop(defs, sp_now, pending_pops),
+            16 | 17 => {
+                let r = self.reg();
+                let step = *self.rng.pick(&[1i64, 1, -1, 2, 3, 4, 8, -2]);
+                let op = if self.rng.chance(1, 4) { BinOpType::IntSub } else { BinOpType::IntAdd };
+                defs.push(assign(self.t("d"), reg(r), e_bin(op, e_reg(r), e_const(step, 8))));
+            }
+            _ => {
+                let a = self.reg();
+                let b = self.reg();
+                defs.push(assign(self.t("d"), reg(a), e_reg(b)));
+            }
+        }
+    }
+
+    fn pop(&mut self, defs: &mut Vec<Term<Def>>, sp_now: &mut i64, pending_pops: &mut Vec<&'static str>) {
+        if let Some(r) = pending_pops.pop() {
+            defs.push(load(self.t("d"), reg(r), e_reg("RSP")));
+            defs.push(assign(self.t("d"), reg("RSP"), e_bin(BinOpType::IntAdd, e_reg("RSP"), e_const(8, 8))));
+            *sp_now += 8;
+        }
+    }
+
+    fn function(&mut self) -> Term<Sub> {
+        let nblk = self.rng.range_usize(2, 6);
+        let blk_tids: Vec<Tid> = (0..nblk).map(|i| tid(&format!("blk{i}"), &format!("b{i:02}0"))).collect();
+        // ---- frame layout
+        let frame: i64 = *self.rng.pick(&[0i64, 16, 16, 32, 48, 64]);
+        self.has_fp = self.rng.chance(3, 5);
+        let pushed = self.has_fp && self.rng.chance(4, 5);
+        let mask = frame > 0 && self.rng.chance(1, 8);
+        self.rbp_off = if pushed { -8 } else { 0 };
+        let mut base_sp = -(frame + if pushed { 8 } else { 0 });
+        if mask {
+            base_sp &= -16;
+        }
+        let lo = if frame == 0 { base_sp - 64 } else { base_sp };
+        let nslots = self.rng.range_usize(2, 4);
+        for _ in 0..nslots {
+            if !self.slots.is_empty() && self.rng.chance(1, 4) {
+                // overlapping / adjacent sibling of an existing slot
+                let (o, s) = *self.rng.pick(&self.slots);
+                let sib = if s == 8 { (o + *self.rng.pick(&[0i64, 4]), 4) } else { (o & -8, 8) };
+                if sib.0 + sib.1 as i64 <= 0 && sib.0 >= lo && !self.slots.contains(&sib) {
+                    self.slots.push(sib);
+                    continue;
+                }
+            }
+            let size = *self.rng.pick(&[8u32, 8, 4]);
+            let span = (-(lo) / size as i64).max(1);
+            let o = -(self.rng.range_i64(1, span) * size as i64);
+            if !self.slots.contains(&(o, size)) {
+                self.slots.push((o, size));
+            }
+        }
+        if self.rng.chance(1, 4) {
+            // stack parameter area / return address
+            let o = *self.rng.pick(&[0i64, 8, 8, 16, 24]);
+            let size = *self.rng.pick(&[8u32, 8, 4]);
+            self.slots.push((o, size));
+        }
+        // ---- counter
+        let counter = if self.rng.chance(3, 5) && nblk >= 2 {
+            let step = *self.rng.pick(&[1i64, 1, 1, 2, 3, 4, 8, -1, -1, -2, -3]);
+            let init = if self.rng.chance(2, 3) { *self.rng.pick(&[0i64, 0, 1, 10, -5, 100]) } else { self.c() };
+            let dist = *self.rng.pick(&[3i64, 5, 8, 10, 10, 16, 100]);
+            let bound = if self.rng.chance(3, 4) { init.wrapping_add(step.wrapping_mul(dist)) } else { self.c() };
+            self.consts.push(bound);
+            self.consts.push(init);
+            let slot = if self.rng.chance(1, 3) {
+                self.slots.iter().copied().find(|(o, _)| *o < 0)
+            } else {
+                None
+            };
+            Some(Counter {
+                reg: self.reg(),
+                slot,
+                init,
+                step,
+                bound,
+                op: *self.rng.pick(CMP_OPS),
+                const_left: self.rng.chance(1, 4),
+                via_flag: self.rng.chance(1, 3),
+                negate: self.rng.chance(1, 4),
+            })
+        } else {
+            None
+        };
+        let loop_blk = if counter.is_some() { self.rng.range_usize(1, nblk - 1) } else { usize::MAX };
+
+        let mut blocks = Vec::new();
+        for i in 0..nblk {
+            let mut defs = Vec::new();
+            let mut sp_now = base_sp;
+            let mut pops: Vec<&'static str> = Vec::new();
+            if i == 0 {
+                // prologue
+                if pushed {
+                    defs.push(assign(self.t("d"), reg("RSP"), e_bin(BinOpType::IntSub, e_reg("RSP"), e_const(8, 8))));
+                    defs.push(store(self.t("d"), e_reg("RSP"), e_reg("RBP")));
+                }
+                if self.has_fp {
+                    defs.push(assign(self.t("d"), reg("RBP"), e_reg("RSP")));
+                }
+                if frame > 0 {
+                    if self.rng.chance(1, 5) {
+                        defs.push(assign(self.t("d"), reg("RSP"), e_bin(BinOpType::IntAdd, e_reg("RSP"), e_const(-frame, 8))));
+                    } else {
+                        defs.push(assign(self.t("d"), reg("RSP"), e_bin(BinOpType::IntSub, e_reg("RSP"), e_const(frame, 8))));
+                    }
+                }
+                if mask {
+                    defs.push(assign(self.t("d"), reg("RSP"), e_bin(BinOpType::IntAnd, e_reg("RSP"), e_const(-16, 8))));
+                }
+                if let Some(c) = &counter {
+                    match c.slot {
+                        Some(s) => {
+                            let v = e_const(c.init, s.1);
+                            self.store_slot(&mut defs, s, v, sp_now);
+                        }
+                        None => defs.push(assign(self.t("d"), reg(c.reg), e_const(c.init, 8))),
+                    }
+                }
+            }
+            let nd = self.rng.below(5);
+            let counter_pos = self.rng.below(nd + 1);
+            for k in 0..=nd {
+                if i == loop_blk && k == counter_pos {
+                    let c = counter.as_ref().unwrap();
+                    if let Some(s) = c.slot {
+                        self.load_slot(&mut defs, s, c.reg, sp_now);
+                        defs.push(assign(self.t("d"), reg(c.reg), e_bin(BinOpType::IntAdd, e_reg(c.reg), e_const(c.step, 8))));
+                        let v = if s.1 == 8 { e_reg(c.reg) } else { self.sub4(c.reg) };
+                        self.store_slot(&mut defs, s, v, sp_now);
+                    } else if c.step < 0 && self.rng.bool() {
+                        defs.push(assign(self.t("d"), reg(c.reg), e_bin(BinOpType::IntSub, e_reg(c.reg), e_const(-c.step, 8))));
+                    } else {
+                        defs.push(assign(self.t("d"), reg(c.reg), e_bin(BinOpType::IntAdd, e_reg(c.reg), e_const(c.step, 8))));
+                    }
+                }
+                if k < nd {
+                    self.def(&mut defs, &mut sp_now, &mut pops);
+                }
+            }
+            // balance the stack pointer (exotic programs may leave it unbalanced)
+            while !pops.is_empty() {
+                if self.exotic && self.rng.chance(1, 3) {
+                    break;
+                }
+                self.pop(&mut defs, &mut sp_now, &mut pops);
+            }
+            // ---- terminator
+            let last = i + 1 == nblk;
+            let rng_target = |g: &mut Gen, back_ok: bool| -> Tid {
+                if i + 1 < nblk && (!back_ok || g.rng.chance(7, 10)) {
+                    blk_tids[g.rng.range_usize(i + 1, nblk - 1)].clone()
+                } else {
+                    let lo = if g.exotic && g.rng.chance(1, 4) { 0 } else { 1 };
+                    blk_tids[g.rng.range_usize(lo, nblk - 1)].clone()
+                }
+            };
+            let mut jmps = Vec::new();
+            if i == loop_blk {
+                let c = counter.as_ref().unwrap();
+                let (l, r) = if c.const_left { (e_const(c.bound, 8), e_reg(c.reg)) } else { (e_reg(c.reg), e_const(c.bound, 8)) };
+                let mut cond = e_bin(c.op, l, r);
+                if c.via_flag {
+                    let f = self.flag();
+                    defs.push(assign(self.t("d"), f.clone(), cond));
+                    cond = e_var(&f);
+                }
+                if c.negate {
+                    cond = e_un(UnOpType::BoolNegate, cond);
+                }
+                let back = blk_tids[self.rng.range_usize(1, i)].clone();
+                let fwd = if last { blk_tids[self.rng.range_usize(1, nblk - 1)].clone() } else { rng_target(self, false) };
+                let (t1, t2) = if self.rng.chance(4, 5) { (back, fwd) } else { (fwd, back) };
+                jmps.push(jmp(self.t("j"), Jmp::CBranch { target: t1, condition: cond }));
+                jmps.push(jmp(self.t("j"), Jmp::Branch(t2)));
+            } else {
+                let choice = self.rng.below(20);
+                match choice {
+                    0..=9 if !last => {
+                        let cond = self.cond(2);
+                        let t1 = rng_target(self, true);
+                        let t2 = rng_target(self, true);
+                        jmps.push(jmp(self.t("j"), Jmp::CBranch { target: t1, condition: cond }));
+                        jmps.push(jmp(self.t("j"), Jmp::Branch(t2)));
+                    }
+                    10..=16 if !last => {
+                        let t = rng_target(self, true);
+                        jmps.push(jmp(self.t("j"), Jmp::Branch(t)));
+                    }
+                    _ => {
+                        // epilogue + return
+                        if self.has_fp && self.rng.chance(2, 3) {
+                            defs.push(assign(self.t("d"), reg("RSP"), e_reg("RBP")));
+                        } else if sp_now != self.rbp_off && !(self.rng.chance(1, 10)) {
+                            defs.push(assign(self.t("d"), reg("RSP"), e_bin(BinOpType::IntAdd, e_reg("RSP"), e_const(self.rbp_off - sp_now, 8))));
+                        }
+                        if pushed {
+                            defs.push(load(self.t("d"), reg("RBP"), e_reg("RSP")));
+                            defs.push(assign(self.t("d"), reg("RSP"), e_bin(BinOpType::IntAdd, e_reg("RSP"), e_const(8, 8))));
+                        }
+                        let rv = tmp(&format!("$Uret{}", self.n), 8);
+                        defs.push(load(self.t("d"), rv.clone(), e_reg("RSP")));
+                        defs.push(assign(self.t("d"), reg("RSP"), e_bin(BinOpType::IntAdd, e_reg("RSP"), e_const(8, 8))));
+                        jmps.push(jmp(self.t("j"), Jmp::Return(e_var(&rv))));
+                    }
+                }
+            }
+            blocks.push(blk(blk_tids[i].clone(), defs, jmps));
+        }
+        sub(tid("sub_f", "f000"), "f", blocks)
+    }
+}
+
+fn pool_const(rng: &mut Rng) -> i64 {
+    match rng.below(20) {
+        0..=6 => rng.range_i64(0, 20),
+        7 | 8 => -rng.range_i64(1, 20),
+        9..=14 => *rng.pick(&[
+            0x7fi64,
+            0x80,
+            0xff,
+            0x100,
+            0x7fff,
+            0xffff,
+            0x7fff_ffff,
+            0x8000_0000,
+            0xffff_ffff,
+            0x1_0000_0000,
+            i64::MAX,
+            i64::MIN,
+            -1,
+            -0x8000_0000,
+            1000,
+        ]),
+        _ => rng.biased(8) as i64,
+    }
+}
+
+/// Generate one program; returns the project after basic (and optionally optimising) normalisation.
+pub fn gen_program(rng: &mut Rng, optimize: bool, exotic: bool) -> (Project, Meta) {
+    let nconst = rng.range_usize(2, 4);
+    let consts: Vec<i64> = (0..nconst).map(|_| pool_const(rng)).collect();
+    let nregs = rng.range_usize(2, 5);
+    let mut all: Vec<&'static str> = DATA_REGS.to_vec();
+    rng.shuffle(&mut all);
+    all.truncate(nregs);
+    let mut g = Gen { rng, n: 0, consts, slots: Vec::new(), regs: all, has_fp: false, rbp_off: 0, exotic };
+    let f = g.function();
+    let mut meta = Meta { consts: g.consts.clone(), slots: g.slots.clone(), optimized: optimize };
+    meta.consts.sort();
+    meta.consts.dedup();
+    let entry = f.tid.clone();
+    let mut project = project_x64(program(vec![f], vec![], Some(entry)));
+    let _ = project.normalize_basic();
+    if optimize {
+        let _ = project.normalize_optimize();
+    }
+    (project, meta)
+}
+
+// ---------------------------------------------------------------------------------------------
+// Running the analysis and extracting what it claims
+
+fn memory_config() -> &'static Value {
+    static CFG: OnceLock<Value> = OnceLock::new();
+    CFG.get_or_init(|| {
+        let path = std::env::var("CWE_CHECKER_CONFIG").unwrap_or_else(|_| "/repo/src/config.json".to_string());
+        std::fs::read_to_string(&path)
+            .ok()
+            .and_then(|t| serde_json::from_str::<Value>(&t).ok())
+            .map(|v| v["Memory"].clone())
+            .filter(|v| v.is_object())
+            .unwrap_or_else(|| json!({"allocation_symbols": ["malloc", "calloc", "realloc", "reallocarray", "xmalloc", "strdup", "operator.new", "operator.new[]"]}))
+    })
+}
+
+pub struct BlockAbs {
+    pub regs: Vec<(Variable, AbsVal)>,
+    pub slots: Vec<((i64, u32), AbsVal)>,
+}
+
+pub struct Extract {
+    pub sub_tid: Tid,
+    /// per block of the function: Some(values) or None if the analysis has no state for the block start
+    pub blocks: BTreeMap<Tid, Option<BlockAbs>>,
+    pub def_vals: BTreeMap<Tid, AbsVal>,
+    pub def_addrs: BTreeMap<Tid, AbsVal>,
+    pub stabilized: bool,
+    pub ill_formed: u64,
+    /// per block: how many distinct identifiers the values of the variables of its branch condition are relative to (at the block end)
+    pub cond_ids: BTreeMap<Tid, usize>,
+}
+
+fn count_ill_formed(a: &AbsVal) -> u64 {
+    let bad = |i: &Itv| (i.start > i.end || (i.start == i.end) != (i.stride == 0) || (i.stride != 0 && (i.end - i.start) % i.stride as i128 != 0)) as u64;
+    a.abs.as_ref().map(bad).unwrap_or(0) + a.rel.iter().map(|(_, _, i)| bad(i)).sum::<u64>()
+}
+
+/// The pipeline as the command line tool runs it (after normalisation): CFG, function signatures, pointer inference.
+pub fn analyse(project: &Project, meta: &Meta) -> Extract {
+    let (cfg_graph, _logs) = graph::get_program_cfg_with_logs(&project.program);
+    let binary: Vec<u8> = Vec::new();
+    let ar = AnalysisResults::new(&binary, &cfg_graph, project);
+    let (sigs, _sig_logs) = ar.compute_function_signatures();
+    let ar = ar.with_function_signatures(Some(&sigs));
+    let pi = ar.compute_pointer_inference(memory_config(), false);
+    let stabilized = !pi.collected_logs.0.iter().any(|l| l.text.contains("Fixpoint did not stabilize"));
+    let main_sub = project.program.term.subs.values().find(|s| !s.tid.is_artificial_sink_sub()).expect("no function");
+    let sub_tid = main_sub.tid.clone();
+    let mut ex = Extract { sub_tid: sub_tid.clone(), blocks: BTreeMap::new(), def_vals: BTreeMap::new(), def_addrs: BTreeMap::new(), stabilized, ill_formed: 0, cond_ids: BTreeMap::new() };
+    for b in &main_sub.term.blocks {
+        ex.blocks.insert(b.tid.clone(), None);
+    }
+    let g = pi.get_graph();
+    let regs: Vec<Variable> = project.register_set.iter().cloned().collect();
+    for idx in g.node_indices() {
+        if let Node::BlkStart(blk, sub) = g[idx] {
+            if sub.tid != sub_tid {
+                continue;
+            }
+            let state = match pi.get_node_value(idx) {
+                Some(NodeValue::Value(s)) => s,
+                _ => continue,
+            };
+            let mut ba = BlockAbs { regs: Vec::new(), slots: Vec::new() };
+            for r in &regs {
+                if let Some(d) = pi.eval_at_node(idx, &Expression::Var(r.clone())) {
+                    let a = decode(&d, &sub_tid);
+                    ex.ill_formed += count_ill_formed(&a);
+                    ba.regs.push((r.clone(), a));
+                }
+            }
+            for (off, size) in &meta.slots {
+                let address = Data::from_target(state.stack_id.clone(), IntervalDomain::from(crate::conv::bv_i(*off, 8)));
+                let a = match state.load_value_from_address(&address, crate::conv::bs(*size), &project.runtime_memory_image) {
+                    Ok(d) => decode(&d, &sub_tid),
+                    Err(_) => AbsVal { w: *size, top: true, abs: None, rel: vec![], text: "unreadable (treated as Top)".into() },
+                };
+                ex.ill_formed += count_ill_formed(&a);
+                ba.slots.push(((*off, *size), a));
+            }
+            ex.blocks.insert(blk.tid.clone(), Some(ba));
+        }
+    }
+    for b in &main_sub.term.blocks {
+        if let Some(Term { tid: jtid, term: Jmp::CBranch { condition, .. } }) = b.term.jmps.first() {
+            let mut ids = BTreeSet::new();
+            for v in condition.input_vars() {
+                if let Some(d) = pi.eval_at_jmp(jtid, &Expression::Var(v.clone())) {
+                    ids.extend(d.referenced_ids().cloned());
+                }
+            }
+            ex.cond_ids.insert(b.tid.clone(), ids.len());
+        }
+        for d in &b.term.defs {
+            if let Some(v) = pi.eval_value_at_def(&d.tid) {
+                ex.def_vals.insert(d.tid.clone(), decode(&v, &sub_tid));
+            }
+            if let Some(v) = pi.eval_address_at_def(&d.tid) {
+                ex.def_addrs.insert(d.tid.clone(), decode(&v, &sub_tid));
+            }
+        }
+    }
+    ex
+}
+
+// ---------------------------------------------------------------------------------------------
+// Executions and the oracle
+
+fn around(rng: &mut Rng, meta: &Meta, w: u32) -> u128 {
+    match rng.below(10) {
+        0..=5 if !meta.consts.is_empty() => {
+            let c = *rng.pick(&meta.consts);
+            let d = *rng.pick(&[0i64, 0, 1, -1, 2, -2, 3, 8, -8]);
+            V::from_i(c.wrapping_add(d) as i128, w).v
+        }
+        6 => rng.below(24) as u128,
+        7 => V::from_i(-(rng.below(24) as i128), w).v,
+        _ => rng.biased(w),
+    }
+}
+
+pub fn initial_state(rng: &mut Rng, project: &Project, meta: &Meta) -> XState {
+    let mut st = XState::default();
+    for r in project.register_set.iter() {
+        let w = u64::from(r.size) as u32;
+        let v = if w == 1 {
+            rng.below(2) as u128
+        } else if r.name == "RSP" {
+            ((rng.next_u64() >> 20) << 16) as u128 | 0x7000_0000_0000
+        } else {
+            around(rng, meta, w)
+        };
+        st.vars.insert(r.clone(), V::new(v, w));
+    }
+    if rng.chance(1, 3) {
+        // two registers equal / adjacent
+        let a = reg(*rng.pick(DATA_REGS));
+        let b = reg(*rng.pick(DATA_REGS));
+        let va = st.vars[&a];
+        st.vars.insert(b, V::new(va.v.wrapping_add(*rng.pick(&[0u128, 0, 1, u64::MAX as u128])), 8));
+    }
+    let sp = st.vars[&reg("RSP")].v as u64;
+    let m = Machine::new(0);
+    for (off, size) in &meta.slots {
+        if rng.bool() {
+            let v = around(rng, meta, *size);
+            m.store_mem(&mut st, sp.wrapping_add(*off as u64), *size, v);
+        }
+    }
+    st
+}
+
+struct Finding {
+    sig: String,
+    detail: String,
+}
+
+struct Obs<'a> {
+    ex: &'a Extract,
+    m: &'a Machine,
+    entry: &'a XState,
+    entry_sp: u64,
+    finding: Option<Finding>,
+    incon: BTreeMap<String, u64>,
+    evals: u64,
+    blocks_seen: u64,
+    nontop_checked: bool,
+    cur_block_has_value: bool,
+    prev_block: Option<Tid>,
+}
+
+impl<'a> Obs<'a> {
+    fn check(&mut self, what: &str, sig: &str, a: &AbsVal, c: V, is_sp: bool) {
+        if self.finding.is_some() {
+            return;
+        }
+        self.evals += 1;
+        match a.member(c, self.entry, self.m) {
+            Member::Yes => {
+                if !is_sp && !a.is_top() {
+                    self.nontop_checked = true;
+                }
+            }
+            Member::Unknown => *self.incon.entry("identifier-not-concretisable".to_string()).or_insert(0) += 1,
+            Member::No => {
+                self.finding = Some(Finding {
+                    sig: format!("{sig}:{}", a.shape()),
+                    detail: format!("{what}: concrete value {:#x} (signed {}) of {} bytes is not represented by the abstract value {}", c.v, c.s(), c.w, a.text),
+                });
+            }
+        }
+    }
+}
+
+impl<'a> Observer for Obs<'a> {
+    fn block_start(&mut self, blk: &Term<Blk>, st: &XState) {
+        if self.finding.is_some() {
+            return;
+        }
+        self.blocks_seen += 1;
+        let prev = self.prev_block.replace(blk.tid.clone());
+        let ex = self.ex;
+        match ex.blocks.get(&blk.tid) {
+            Some(Some(ba)) => {
+                self.cur_block_has_value = true;
+                for (r, a) in &ba.regs {
+                    let c = match self.m.read_var(st, r) {
+                        Ok(c) => c,
+                        Err(_) => continue,
+                    };
+                    let sig = if r.size == ByteSize::new(1) { "blk-start:flag" } else { "blk-start:reg" };
+                    self.check(&format!("register {} at the start of block {}", r.name, blk.tid), sig, a, c, r.name == "RSP");
+                }
+                for ((off, size), a) in &ba.slots {
+                    let c = V::new(self.m.load_mem(st, self.entry_sp.wrapping_add(*off as u64), *size), *size);
+                    self.check(&format!("stack slot [entry RSP{off:+}]:{size} at the start of block {}", blk.tid), "blk-start:slot", a, c, false);
+                }
+            }
+            _ => {
+                self.cur_block_has_value = false;
+                self.evals += 1;
+                let hint = match prev.as_ref().and_then(|p| ex.cond_ids.get(p)) {
+                    None => "no-condition",
+                    Some(0) => "condition-on-absolute-values",
+                    Some(1) => "condition-on-values-relative-to-one-id",
+                    Some(_) => "condition-on-values-relative-to-different-ids",
+                };
+                self.finding = Some(Finding {
+                    sig: format!("unreachable-block-reached:{hint}"),
+                    detail: format!("the run reaches block {} (coming from {}) but the analysis has no state for its start (considers it unreachable)", blk.tid, prev.as_ref().map(|t| format!("{t}")).unwrap_or("the entry".into())),
+                });
+            }
+        }
+    }
+
+    fn before_def(&mut self, def: &Term<Def>, st: &XState) {
+        if self.finding.is_some() || !self.cur_block_has_value {
+            return;
+        }
+        let ex = self.ex;
+        let (address, value) = match &def.term {
+            Def::Load { address, .. } => (Some(address), None),
+            Def::Store { address, value } => (Some(address), Some(value)),
+            Def::Assign { .. } => (None, None),
+        };
+        if let Some(address) = address {
+            if let (Some(a), Ok(c)) = (ex.def_addrs.get(&def.tid), self.m.eval(st, address)) {
+                self.check(&format!("address of {} ({})", def.tid, def.term), "def:address", a, c, true);
+            }
+        }
+        if let Some(value) = value {
+            if let (Some(a), Ok(c)) = (ex.def_vals.get(&def.tid), self.m.eval(st, value)) {
+                self.check(&format!("stored value of {} ({})", def.tid, def.term), "def:store-value", a, c, false);
+            }
+        }
+    }
+
+    fn after_def(&mut self, def: &Term<Def>, st: &XState) {
+        if self.finding.is_some() || !self.cur_block_has_value {
+            return;
+        }
+        let ex = self.ex;
+        let (var, sig) = match &def.term {
+            Def::Load { var, .. } => (var, "def:load-value"),
+            Def::Assign { var, .. } => (var, "def:assign-value"),
+            Def::Store { .. } => {
+                if !ex.def_vals.contains_key(&def.tid) {
+                    self.evals += 1;
+                    self.finding = Some(Finding {
+                        sig: "def-without-state-completed".into(),
+                        detail: format!("the run completes {} ({}) but the analysis has no value for it although the block start has a state (an earlier access of the block is treated as a certain NULL dereference)", def.tid, def.term),
+                    });
+                }
+                return;
+            }
+        };
+        match ex.def_vals.get(&def.tid) {
+            Some(a) => {
+                if let Some(c) = st.get(var) {
+                    self.check(&format!("value of {} ({})", def.tid, def.term), sig, a, c, var.name == "RSP");
+                }
+            }
+            None => {
+                self.evals += 1;
+                self.finding = Some(Finding {
+                    sig: "def-without-state-completed".into(),
+                    detail: format!("the run completes {} ({}) but the analysis has no value for it although the block start has a state (an earlier access of the block is treated as a certain NULL dereference)", def.tid, def.term),
+                });
+            }
+        }
+    }
+}
+
+fn program_size(sub: &Term<Sub>) -> u64 {
+    sub.term.blocks.iter().map(|b| 3 + b.term.defs.len() as u64 + b.term.jmps.len() as u64).sum()
+}
+
+fn regs_text(st: &XState) -> String {
+    st.vars.iter().filter(|(v, _)| !v.is_temp).map(|(v, x)| format!("{}={:#x}", v.name, x.v)).collect::<Vec<_>>().join(" ")
+}
+
+fn check_program_inner(project: &Project, meta: &Meta, state_seed: u64, n_states: usize, max_blocks: usize, rep: &mut Report) -> Option<BTreeMap<Tid, usize>> {
+    let case = || json!({"project": project_to_json(project), "meta": meta.to_json(), "state_seed": state_seed, "n_states": n_states, "max_blocks": max_blocks});
+    let main_sub = match project.program.term.subs.values().find(|s| !s.tid.is_artificial_sink_sub()) {
+        Some(s) if !s.term.blocks.is_empty() => s,
+        _ => {
+            rep.inconclusive("program-without-function-after-normalisation");
+            return None;
+        }
+    };
+    let size = program_size(main_sub);
+    let ex = match guard(|| analyse(project, meta)) {
+        Ok(ex) => ex,
+        Err(p) => {
+            rep.eval();
+            rep.violation(format!("analysis:panic:{}", panic_site(&p)), None, format!("the analysis pipeline panicked: {p}\n{}", show_sub(main_sub)), case(), size);
+            return None;
+        }
+    };
+    if ex.ill_formed > 0 {
+        rep.obs_n("ill-formed-interval-in-result(not judged here)", ex.ill_formed);
+    }
+    if !ex.stabilized {
+        rep.inconclusive("fixpoint-did-not-stabilize");
+        return None;
+    }
+    let prog_fp = fp_of(&main_sub.term);
+    let unreachable = ex.blocks.values().filter(|b| b.is_none()).count();
+    if unreachable > 0 {
+        rep.obs("program:has-block-without-state");
+    }
+    let mut nontrivial_runs = 0u64;
+    for k in 0..n_states {
+        let mut rng = Rng::derive(state_seed, "c13-state", k as u64);
+        let entry = initial_state(&mut rng, project, meta);
+        let mut m = Machine::new(rng.next_u64());
+        m.max_blocks = max_blocks;
+        m.null_guard = Some((-1024, 1024));
+        let entry_sp = entry.vars[&reg("RSP")].v as u64;
+        let mut st = entry.clone();
+        let mut obs = Obs { ex: &ex, m: &m, entry: &entry, entry_sp, finding: None, incon: BTreeMap::new(), evals: 0, blocks_seen: 0, nontop_checked: false, cur_block_has_value: false, prev_block: None };
+        let trace = m.run_sub(main_sub, &mut st, &mut obs);
+        rep.evals(obs.evals);
+        for (k2, n) in &obs.incon {
+            *rep.inconclusive.entry(k2.clone()).or_insert(0) += n;
+        }
+        if let Some(f) = obs.finding {
+            let detail = format!(
+                "{}\n  initial state #{k} (state seed {state_seed}): {}\n  events before: {}\n--- function ({}):\n{}",
+                f.detail,
+                regs_text(&entry),
+                trace.len(),
+                if meta.optimized { "after normalize_basic + normalize_optimize" } else { "after normalize_basic" },
+                show_sub(main_sub)
+            );
+            rep.violation(f.sig, None, detail, case(), size);
+            continue;
+        }
+        match trace.last() {
+            Some(Ev::Return { .. }) => rep.obs("run:return"),
+            Some(Ev::Capped) => rep.obs("run:step-cap"),
+            Some(Ev::DeadEnd { .. }) => rep.obs("run:dead-end"),
+            Some(Ev::NullAbort { .. }) => rep.obs("run:null-abort"),
+            Some(Ev::Undefined { what }) => {
+                rep.obs("run:undefined");
+                rep.note(format!("a generated program did something undefined: {what}"));
+            }
+            _ => rep.obs("run:other"),
+        }
+        if obs.blocks_seen >= 2 && obs.nontop_checked {
+            rep.nontrivial(mix(prog_fp, k as u64 ^ state_seed.rotate_left(17)));
+            nontrivial_runs += 1;
+        }
+    }
+    if nontrivial_runs > 0 {
+        rep.obs("program:with-nontrivial-runs");
+    }
+    Some(ex.cond_ids)
+}
+
+/// Key of the proposed known finding: `DataDomain::intersect` (documented as unsound in its own comment) treats
+/// values relative to different identifiers as disjoint, so a branch condition that relates two parameters
+/// (`a == b`, `(a - b) == c`, ...) makes the feasible branch unreachable for the analysis.
+pub const KNOWN_MIXED_IDS: &str = "c13-intersection-of-values-relative-to-different-ids";
+
+/// The same program with every branch condition whose variables are relative to two or more different
+/// identifiers replaced by an opaque flag (a register the program never writes and the analysis knows nothing about).
+fn opaque_variant(project: &Project, cond_ids: &BTreeMap<Tid, usize>) -> Project {
+    let mut p = project.clone();
+    for sub in p.program.term.subs.values_mut() {
+        for b in sub.term.blocks.iter_mut() {
+            if cond_ids.get(&b.tid).copied().unwrap_or(0) >= 2 {
+                if let Some(Term { term: Jmp::CBranch { condition, .. }, .. }) = b.term.jmps.first_mut() {
+                    *condition = Expression::Var(var("PF", 1));
+                }
+            }
+        }
+    }
+    p
+}
+
+/// Analyse one (already normalised) project and run it from `n_states` initial states.
+/// Discriminator for the known-finding proposal `KNOWN_MIXED_IDS`: the program has a branch condition over values
+/// relative to different identifiers AND no violation is left when exactly those conditions are made opaque.
+pub fn check_program(project: &Project, meta: &Meta, state_seed: u64, n_states: usize, max_blocks: usize, rep: &mut Report) {
+    let mut tmp = Report::new();
+    let cond_ids = check_program_inner(project, meta, state_seed, n_states, max_blocks, &mut tmp);
+    if !tmp.violations.is_empty() {
+        if let Some(ci) = cond_ids.filter(|ci| ci.values().any(|n| *n >= 2)) {
+            let variant = opaque_variant(project, &ci);
+            let mut tmp2 = Report::new();
+            check_program_inner(&variant, meta, state_seed, n_states, max_blocks, &mut tmp2);
+            let explained = tmp2.violations.is_empty();
+            tmp.obs(if explained { "violation-explained-by-mixed-identifier-condition" } else { "violation-not-explained-by-mixed-identifier-condition" });
+            if explained {
+                let old = std::mem::take(&mut tmp.violations);
+                for (sig, mut v) in old {
+                    v.signature = format!("mixed-ids:{sig}");
+                    v.known_key = Some(KNOWN_MIXED_IDS.to_string());
+                    tmp.violations.insert(v.signature.clone(), v);
+                }
+            }
+        }
+    }
+    rep.merge(tmp);
+}
+
+fn observe_program(project: &Project, meta: &Meta, rep: &mut Report) {
+    rep.obs(if meta.optimized { "pipeline:basic+optimize" } else { "pipeline:basic" });
+    for s in project.program.term.subs.values().filter(|s| !s.tid.is_artificial_sink_sub()) {
+        rep.obs(&format!("blocks:{}", s.term.blocks.len()));
+        let mut back_edges = false;
+        let index: BTreeMap<&Tid, usize> = s.term.blocks.iter().enumerate().map(|(i, b)| (&b.tid, i)).collect();
+        for (i, b) in s.term.blocks.iter().enumerate() {
+            for d in &b.term.defs {
+                match &d.term {
+                    Def::Load { var, .. } => rep.obs(&format!("def:load{}", u64::from(var.size))),
+                    Def::Store { value, .. } => rep.obs(&format!("def:store{}", u64::from(value.bytesize()))),
+                    Def::Assign { var, .. } if var.size == ByteSize::new(1) => rep.obs("def:flag"),
+                    Def::Assign { var, .. } if var.name == "RSP" => rep.obs("def:rsp"),
+                    Def::Assign { .. } => rep.obs("def:assign"),
+                }
+            }
+            for j in &b.term.jmps {
+                match &j.term {
+                    Jmp::CBranch { target, condition } => {
+                        if index.get(target).is_some_and(|t| *t <= i) {
+                            back_edges = true;
+                        }
+                        let mut ops = BTreeSet::new();
+                        collect_cmp_ops(condition, &mut ops);
+                        if ops.is_empty() {
+                            rep.obs("cbranch:on-flag");
+                        }
+                        for o in ops {
+                            rep.obs(&format!("cbranch:{o}"));
+                        }
+                    }
+                    Jmp::Branch(target) => {
+                        if index.get(target).is_some_and(|t| *t <= i) {
+                            back_edges = true;
+                        }
+                    }
+                    Jmp::Return(_) => rep.obs("jmp:return"),
+                    _ => (),
+                }
+            }
+        }
+        if back_edges {
+            rep.obs("program:has-loop");
+        }
+    }
+}
+
+fn collect_cmp_ops(e: &Expression, out: &mut BTreeSet<String>) {
+    match e {
+        Expression::BinOp { op, lhs, rhs } => {
+            if CMP_OPS.contains(op) {
+                out.insert(format!("{op:?}"));
+            }
+            collect_cmp_ops(lhs, out);
+            collect_cmp_ops(rhs, out);
+        }
+        Expression::UnOp { op, arg } => {
+            if *op == UnOpType::BoolNegate {
+                out.insert("negated".into());
+            }
+            collect_cmp_ops(arg, out);
+        }
+        Expression::Cast { arg, .. } | Expression::Subpiece { arg, .. } => collect_cmp_ops(arg, out),
+        _ => (),
+    }
+}
+
+fn run(cfg: &Cfg) -> Report {
+    let shards = cfg.tier.pick(256usize, 1024usize);
+    let per_shard = cfg.tier.pick(16usize, 12usize);
+    let n_states = cfg.tier.pick(64usize, 1024usize);
+    let max_blocks = cfg.tier.pick(64usize, 96usize);
+    par_shards(cfg, "c13", shards, |idx, rng, rep| {
+        for i in 0..per_shard {
+            let optimize = (idx + i) % 2 == 0;
+            let exotic = rng.chance(1, 8);
+            let (project, meta) = match guard(|| gen_program(rng, optimize, exotic)) {
+                Ok(p) => p,
+                Err(msg) => {
+                    rep.inconclusive(&format!("generator-or-normalisation-panic:{}", panic_site(&msg)));
+                    continue;
+                }
+            };
+            let state_seed = rng.next_u64();
+            observe_program(&project, &meta, rep);
+            check_program(&project, &meta, state_seed, n_states, max_blocks, rep);
+            if idx < 3 && i == 0 {
+                rep.sample(json!({"program": show_program(&project.program.term), "meta": meta.to_json(), "state_seed": state_seed, "initial_states": n_states}));
+            }
+        }
+    })
+}
+
+fn replay(_cfg: &Cfg, case: &Value) -> Report {
+    let mut rep = Report::new();
+    match project_from_json(&case["project"]) {
+        Ok(project) => {
+            let meta = Meta::from_json(&case["meta"]);
+            let seed = case["state_seed"].as_u64().unwrap_or(1);
+            let n = case["n_states"].as_u64().unwrap_or(64) as usize;
+            let mb = case["max_blocks"].as_u64().unwrap_or(64) as usize;
+            check_program(&project, &meta, seed, n, mb, &mut rep);
+        }
+        Err(e) => rep.note(format!("cannot parse replay case: {e}")),
+    }
+    rep
 }
